@@ -143,6 +143,8 @@ def step (line : String) : String :=
     | some s => match KeyId.hexDecode s with | some b => "ok " ++ hexOfBytes b | none => "reject"
     | none => "bad-op"
   | "doc_dec" :: toks => docDec toks
+  | ["rfc3339", h] => runRfc3339 h
+  | ["fmttime", a, b] => runFmtTime a b
   | "rule_dec" :: toks =>
     match readJV toks with
     | some (v, []) =>
